@@ -43,6 +43,11 @@ class SessionCache(object):
         # Maps sessionIDs to sessions
         self.entriesDict = {}
 
+        # Maps sessionIDs to the index of their newest slot in entriesList
+        # (an ID stored again leaves its older slot behind; that slot is
+        # stale and must not remove the live entry when it is recycled)
+        self.entriesSlot = {}
+
         #Circular list of (sessionID, timestamp) pairs
         self.entriesList = [(None,None)] * maxEntries
 
@@ -74,16 +79,24 @@ class SessionCache(object):
         try:
             #Add the new element
             self.entriesDict[bytes(sessionID)] = session
+            self.entriesSlot[bytes(sessionID)] = self.lastIndex
             self.entriesList[self.lastIndex] = (bytes(sessionID), time.time())
             self.lastIndex = (self.lastIndex+1) % len(self.entriesList)
 
             #If the cache is full, we delete the oldest element to make an
             #empty space
             if self.lastIndex == self.firstIndex:
-                del(self.entriesDict[self.entriesList[self.firstIndex][0]])
+                self._drop(self.firstIndex)
                 self.firstIndex = (self.firstIndex+1) % len(self.entriesList)
         finally:
             self.lock.release()
+
+    #Forget the entry of a slot that is about to be recycled
+    def _drop(self, index):
+        sessionID = self.entriesList[index][0]
+        if self.entriesSlot.get(sessionID) == index:
+            del(self.entriesDict[sessionID])
+            del(self.entriesSlot[sessionID])
 
     #Delete expired items
     def _purge(self):
@@ -96,7 +109,7 @@ class SessionCache(object):
         index = self.firstIndex
         while index != self.lastIndex:
             if currentTime - self.entriesList[index][1] > self.maxAge:
-                del(self.entriesDict[self.entriesList[index][0]])
+                self._drop(index)
                 index = (index+1) % len(self.entriesList)
             else:
                 break
